@@ -22,7 +22,8 @@ LEVEL = "exploration"
 RULE = (
     "TIME machine variants (one delay, two delays, targetless delay + second delay, named computed delay, guarded "
     "delay true/false/raise) x environment scripts = all sequences up to the length bound over {LEAVE, BACK, SELF "
-    "(re-enter), NOP, STOP, SLOW (async), CHG (named delay)} with non-decreasing times from a grid straddling the "
+    "(re-enter), NOP, STOP, SLOW (an action that keeps the interpreter busy across a deadline), SLOWSELF (the busy action first "
+    "queues a re-entering event, so the expiry lands behind it), CHG (named delay)} with non-decreasing times from a grid straddling the "
     "deadlines (before, same instant, between, after) x all schedule choices (order of timers tied at an instant, "
     "ready work before/after the next tied timer; sync: op before/after a thread due at the same instant); each "
     "execution is judged on its timestamped log; distinct_nontrivial = distinct (variant, engine, script, schedule, "
@@ -44,6 +45,12 @@ VARIANTS = ("one", "two", "stay", "named", "g_true", "g_false", "g_raise")
 
 
 async def slow_action(interp, ctx, event, action_def):
+    await asyncio.sleep(0.1875)
+
+
+async def slowself_action(interp, ctx, event, action_def):
+    # queue a re-entering event behind the current one, then stay busy
+    await interp.send("SELF")
     await asyncio.sleep(0.1875)
 
 
@@ -72,6 +79,7 @@ def make_cfg(variant: str) -> Dict[str, Any]:
                     "SELF": {"target": "A", "reenter": True},
                     "NOP": {"actions": ["tr:nop"]},
                     "SLOW": {"actions": ["slow", "tr:slow"]},
+                    "SLOWSELF": {"actions": ["slowself", "tr:slow"]},
                 },
             },
             "B": back, "C": back, "X": back,
@@ -88,9 +96,7 @@ def delays_for(variant: str):
 
 
 def scripts(maxlen: int, engine: str, variant: str) -> List[List[tuple]]:
-    ops = ["LEAVE", "BACK", "SELF", "NOP", "STOP"]
-    if engine == "async":
-        ops.append("SLOW")
+    ops = ["LEAVE", "BACK", "SELF", "NOP", "STOP", "SLOW", "SLOWSELF"]
     if variant == "named":
         ops.append("CHG")
     out: List[List[tuple]] = [[]]
@@ -144,7 +150,7 @@ def judge(variant: str, engine: str, script, log: List[tuple], d) -> List[Tuple[
             stopped_at = e[2]
         elif e[0] == "OPDONE" and e[1] == "STOP":
             stop_returned = True
-        elif e[0] == "OP" and e[1] == "SLOW":
+        elif e[0] == "OP" and e[1] in ("SLOW", "SLOWSELF"):
             s0 = max(e[2], slow_spans[-1][1]) if slow_spans else e[2]
             slow_spans.append((s0, s0 + 0.1875))
     end_time = stopped_at if stopped_at is not None else HORIZON
@@ -213,17 +219,28 @@ def units(tier: str) -> List[Any]:
     return us
 
 
-def harness_for(variant: str) -> Harness:
+def harness_for(variant: str, engine: str = "async") -> Harness:
     gv = {"g_true": True, "g_false": False, "g_raise": "raise"}.get(variant)
+    if engine == "async":
+        acts = {"slow": slow_action, "slowself": slowself_action}
+    else:
+        def slow_sync(interp, ctx, event, action_def):
+            h.sync_sleep(0.1875)
+
+        def slowself_sync(interp, ctx, event, action_def):
+            interp.send("SELF")
+            h.sync_sleep(0.1875)
+
+        acts = {"slow": slow_sync, "slowself": slowself_sync}
     h = Harness(make_cfg(variant), with_plugin=True, threads=True, guards=["g1"] if gv is not None else None,
-                delays=delays_for(variant), extra_actions={"slow": slow_action}, budget=3000)
+                delays=delays_for(variant), extra_actions=acts, budget=3000)
     if gv is not None:
         h.rec.guard_vals = {"g1": gv}
     return h
 
 
 def run_one(variant, engine, script, prefix=None):
-    h = harness_for(variant)
+    h = harness_for(variant, engine)
     results = []
 
     def run(ch: Choices):
